@@ -14,11 +14,11 @@ BUILT = {
     'C09': ('Hypothesis random search over complete manifolds constructed from sector counts; differential oracle scipy expm; round-trip (dt, -dt) oracle for reversibility',
             'Exploration: states on complete manifolds (bond multiplicities min(n_left, n_right)) are evolved with real, imaginary and complex dt by both integrators with exact local exponentials and compared '
             'with expm(-dt n H) psi0; judged where every bond is saturated on one side for all charge blocks (elsewhere projector splitting is provably not exact; counted). Reversibility on full-rank representations.',
-            'dense reach d^L <= 128 (256 thorough); |dt| ||H|| n <= 3; scipy.linalg.expm trusted', '4 (C09)'),
+            'dense reach d^L <= 128 (256 thorough); |dt| ||H|| n <= 3; scipy.linalg.expm trusted; a failure is attributed to known finding F5 (excluded, counted) only on runs that showed its run-time signature', '4 (C09)'),
     'C10': ('Hypothesis random search over (Hermitian MPO, sector start state, algorithm, sweeps, Lanczos iterations, split tolerance); dense eigvalsh oracle restricted to the charge sector',
             'Exploration: normalisation, state energy = last reported energy, variational bound against the exact sector ground energy, first energy <= start energy, monotone energies (two-site: tol_split = 0), '
-            'sector confinement, sparsity, immutability of H, repeated invocation; on one-sided complete manifolds with enough iterations the run must end in an eigenstate and, for irreducible sector blocks, in the ground energy.',
-            'dense reach d^L <= 128 (256 thorough); 1e-9 max(1, ||H||); convergence only where it is a theorem for Krylov-based local solvers; energy clauses excluded on runs carrying the run-time signature of known finding F5', '4 (C10)'),
+            'sector confinement, sparsity, immutability of H, repeated invocation (also after a scaling or a bond-gauge change of the state between the calls), documented default arguments; L = 2 two-site runs from basis product, sparse and generic states must report the smallest eigenvalue reachable from the start vector; on one-sided complete manifolds with enough iterations the run must end in an eigenstate and, for irreducible sector blocks, in the ground energy.',
+            'dense reach d^L <= 128 (256 thorough); 1e-9 max(1, ||H||); convergence only where it is a theorem for Krylov-based local solvers; a failing energy clause or an aborted sweep is attributed to known finding F5 (excluded, counted) only on runs that showed its run-time signature', '4 (C10)'),
     'C11': ('exhaustive enumeration of small charge layouts + Hypothesis random search, dense-algebra oracle',
             'Exploration: every charge layout over {0,1,2} up to 3x3 (4x4 thorough) with four entry styles is enumerated, plus '
             'thousands of generated block-sparse matrices up to 12x12; each is judged by reconstruction, isometry, '
@@ -27,7 +27,7 @@ BUILT = {
     'C01': ('Hypothesis random search over charge-consistent MPS/MPO constructions; independent dense-contraction oracle',
             'Exploration: generated MPS and MPO (L 1..6, d 1..4, constructed charge layouts incl. unsorted/repeated/over-complete/rank-deficient/sector-disjoint, '
             'real/complex/integer entries and integer dtype, constructor fills) in both modes; judged by an independent dense contraction before/after, '
-            'isometry of every site tensor, unit norm, bond bounds, sparsity masks, unchanged outer charges and idempotence.',
+            'isometry of every site tensor, unit norm, bond bounds, sparsity masks, unchanged outer charges and idempotence; repeated after a user-style tensor edit, on nearly canonical inputs (deviation 1e-9..5e-6) and under a power-of-two bond gauge.',
             'dense reach d^L <= 4096; 1e-11 relative tolerance', '4 (C01)'),
     'C02': ('Hypothesis-generated operation histories (shrinkable step lists interpreted against a pool of MPS/MPO, JSON-replayable); entry-wise sparsity / list-length invariant after every step',
             'Exploration: histories of 5..10 (25) steps over a pool of sector-consistent MPS and MPOs of one model family (incl. encoded charge pairs) interleave construction, from_vector, sums, differences, '
@@ -36,13 +36,13 @@ BUILT = {
             'histories are sampled, length <= 25, bonds capped at 40; steps whose documented precondition fails are skipped and counted; DMRG steps that abort with the run-time signature of known finding F5 are skipped and counted', '4 (C02)'),
     'C03': ('Hypothesis random search over expression trees and operand families; differential oracle = same expression on independent dense forms',
             'Exploration: generated expression trees (depth <= 3) over MPS/MPO sums, differences, products, operator application and identity, binary '
-            'operations with non-zero boundary charges and operator shifts, sparse-vs-dense matrix form (also after in-place tensor updates between two conversions), from_vector round trips and merge-after-split; '
+            'operations with non-zero boundary charges and operator shifts, sparse-vs-dense matrix form (also after in-place tensor updates between two conversions and under a power-of-two bond gauge), from_vector round trips and merge-after-split; '
             'every result is contracted independently (tensordot) and compared with the expression evaluated on dense operands.',
             'dense reach d^L <= 1024; 1e-11 relative to the product of site-tensor norms', '4 (C03)'),
     'C04': ('Hypothesis random search over path-sharing (bra, operator, ket, density) quadruples; dense-algebra oracle, projection identity for local operators',
             'Exploration: scalars (vdot with conjugation side, norm, operator_average, operator_inner_product, operator_density_average) are compared with dense algebra on '
             'operands constructed to give non-zero values; one-, two- and zero-site effective operators at every position are compared with the projection of the '
-            'dense operator between embedded states and tested for Hermiticity.',
+            'dense operator between embedded states and tested for Hermiticity; the public left / right transfer steps are combined at every cut, and vdot / norm must not change under a power-of-two bond gauge.',
             'dense reach d^L <= 1024; 1e-11 relative to the product of site-tensor norms', '4 (C04)'),
     'C05': ('exhaustive enumeration of small chain programs + Hypothesis program generation; free-algebra (non-commutative polynomial) oracle with exact Fractions',
             'Exploration, exhaustive for its small scope: every list of <= 2 chains for L <= 3 over three symbols and four coefficients (50 688 programs) plus generated '
@@ -51,7 +51,7 @@ BUILT = {
             'exact rational arithmetic for dyadic coefficients, 1e-12 relative for arbitrary floats; dense part limited to d^L <= 600', '4 (C05)'),
     'C06': ('Hypothesis random search over (model, L, parameters incl. zeros and sign changes); differential oracle = textbook Hamiltonian built from occupation-number states / spin matrices',
             'Exploration: every built-in lattice model and the linear fermionic operators for L = 1 .. dense reach with independently drawn parameters (zeros, +-1, +-0.5, generic) are compared '
-            'with an independently constructed dense reference; Hermiticity, block sparsity of every tensor, the charge selection rule of the dense matrix and the resolving power of the physical charges are judged.',
+            'with an independently constructed dense reference (dense and sparse matrix form; parameters and coefficient vectors also as NumPy scalars of other widths; the same constructor call repeated after other models were built); Hermiticity, block sparsity of every tensor, the charge selection rule of the dense matrix and the resolving power of the physical charges are judged.',
             'dense reach d^L <= 1024 (2048 thorough); identically-zero operators excluded', '4 (C06)'),
     'C07': ('enumeration of every orbital count in reach for both build paths + Hypothesis over coefficient structures and gauge rotations; Fock-space reference oracle (sparse)',
             'Exploration: spinless L = 1..7 (9 thorough) optimized and 4.. explicit, spin-orbital L = 1..4 (5) optimized and 2..5 (6) explicit, with complex / real / masked / symmetric / zero-padded / '
